@@ -4,7 +4,7 @@ import ast, json, os, sys
 sys.dont_write_bytecode = True
 ROOT = os.path.dirname(os.path.dirname(os.path.abspath(__file__)))
 sys.path.insert(0, ROOT)
-from sa.localnames import binding_sequence, outer_functions, TABLE_PATH
+from sa.localnames import describe, outer_functions, TABLE_PATH, _param_list
 from sa.normalise import normalise_tree
 out = {}
 base = "/repo"
@@ -18,9 +18,11 @@ for dp, dn, fns in os.walk(os.path.join(base, "ariadne_codegen")):
         normalise_tree(tree)  # the table describes the normal form the analyser works on
         ent = {}
         for q, fn in outer_functions(tree):
-            names, kinds = binding_sequence(fn)
-            if names:
-                ent[q] = {"names": names, "kinds": kinds}
+            e = {"params": _param_list(fn)}
+            d = describe(fn)
+            if d["names"] or d.get("nested"):
+                e.update(d)
+            ent[q] = e
         if ent:
             out[rel] = ent
 json.dump(out, open(TABLE_PATH, "w"), indent=0, sort_keys=True)
